@@ -59,6 +59,7 @@ def run(chk):
             chk.violation('table', 'norelease:%d' % v, {'case': {'release': v}}, 'release protocol %d is not a known version' % v)
             continue
         per = t['per_version'][pos[v]]
+        long_at = set(sorted(rel)[::6] + sorted(rel)[-1:])
         ctx = ConnectionContext(protocol_version=v)
         cc = c05.cctx_of(ctx)
         for p in core:
@@ -96,6 +97,10 @@ def run(chk):
                     py, m = c05.gen_value(gty, rng, i if i < 3 else 3, v, ctx)
                     if ty != s and isinstance(py, int):
                         py = m[1] = py % 128
+                    if i == 2 and gty == ['String'] and v in long_at and not any(len(x[1]) > 9000 for x in vals if isinstance(x[1], str)):
+                        # a string within the published limit of 32767 characters whose UTF-8 form is longer than 32767 bytes
+                        py = '\u4e16\u754c' * 5500
+                        m = [2, [ord(c) for c in py]]
                     vals.append((nm, py, m))
                 jobs.append((v, p, q, ctx, cls, sid, lay, vals, cc, key, case))
     # ---- evaluations that came out differently in another evaluation order / on a reused context (reifier second sweeps)
